@@ -869,6 +869,56 @@ pub fn c16_numeric(prop: &'static str, case: &ProgCase, lm: &LogicalMovie, bytes
             out.push(v(prop, "dimensions", "sample-entry", format!("visual sample entry says {:?}x{:?}, configured {}x{}", t.width, t.height, vcfg.width, vcfg.height)));
             return out;
         }
+        // the length fields inside avcC / hvcC must tile the record exactly, whatever sets it carries
+        {
+            let kids = child_boxes(&t.stsd_entry, 78);
+            if let Some((_, c)) = kids.iter().find(|(t, _)| t == b"avcC") {
+                let ok = (|| -> bool {
+                    if c.len() < 8 {
+                        return false;
+                    }
+                    let sl = u16::from_be_bytes([c[6], c[7]]) as usize;
+                    if c.len() < 8 + sl + 3 {
+                        return false;
+                    }
+                    let pl = u16::from_be_bytes([c[9 + sl], c[10 + sl]]) as usize;
+                    c.len() == 11 + sl + pl
+                })();
+                if !ok {
+                    out.push(v(prop, "parameter-set-length", "avcC:does-not-tile", format!("avcC ({} bytes): the declared SPS/PPS lengths do not add up to the record", c.len())));
+                    return out;
+                }
+            }
+            if let Some((_, c)) = kids.iter().find(|(t, _)| t == b"hvcC") {
+                let ok = (|| -> bool {
+                    if c.len() < 23 {
+                        return false;
+                    }
+                    let mut pos = 23;
+                    for _ in 0..c[22] {
+                        if pos + 3 > c.len() {
+                            return false;
+                        }
+                        let nn = u16::from_be_bytes([c[pos + 1], c[pos + 2]]);
+                        pos += 3;
+                        for _ in 0..nn {
+                            if pos + 2 > c.len() {
+                                return false;
+                            }
+                            pos += 2 + u16::from_be_bytes([c[pos], c[pos + 1]]) as usize;
+                            if pos > c.len() {
+                                return false;
+                            }
+                        }
+                    }
+                    pos == c.len()
+                })();
+                if !ok {
+                    out.push(v(prop, "parameter-set-length", "hvcC:does-not-tile", format!("hvcC ({} bytes): the declared parameter-set lengths do not add up to the record", c.len())));
+                    return out;
+                }
+            }
+        }
         // parameter-set lengths
         if let Some(first) = lm.video.first() {
             if let Some(Op::Video { data, .. } | Op::VideoDts { data, .. } | Op::EncVideo { data, .. }) = case.ops.get(first.op_index) {
